@@ -11,7 +11,7 @@ git status --short | grep -v '^?? seed' && { echo "worktree not clean"; }
 res=$out/verify.log; : > $res
 bash $sd/demo.sh > $out/demo_clean.log 2>&1; d0=$?
 git apply $sd/patch.diff || { echo "patch does not apply" | tee -a $res; exit 2; }
-go build ./... > $out/build.log 2>&1; b=$?
+go build ./pkg/... ./cni/... ./cmd/... > $out/build.log 2>&1; b=$?
 bash $sd/demo.sh > $out/demo_patched.log 2>&1; d1=$?
 # baseline tests with the patch
 go test -json -vet=off -count=1 ./pkg/... ./cni/... 2>/dev/null | python3 -c "
